@@ -37,7 +37,7 @@ CONSTANT = ('K', 'TEN', 'integer', '10')
 # relationship number -> description
 RELS = {1: ('simple', 'A', 'B'), 2: ('reflexive', 'A', 'A'), 3: ('linked', 'A', 'B', 'C')}
 # phrase written at each end (the phrase used when navigating TO that end's class); '' = none
-PHRASES = {(1, 'A'): 'is owned by', (1, 'B'): 'owns', (2, 'part'): 'next', (2, 'form'): 'prev'}
+PHRASES = {(1, 'A'): 'is owned by', (1, 'B'): 'owns', (2, 'part'): 'next', (2, 'form'): 'prev', (3, 'A'): 'left', (3, 'B'): 'right'}
 # navigation steps: (from class, rel, phrase or None) -> (to class, many);  R1: one A -- many B;
 # R2: A 0..1 'next' -- 0..1 'prev' A;  R3: one A -- many B through C (one C per pair)
 STEPS = {}
@@ -47,12 +47,14 @@ for _ph in (None, 'is owned by'):
     STEPS['B', 1, 'A', _ph] = False
 STEPS['A', 2, 'A', 'next'] = False
 STEPS['A', 2, 'A', 'prev'] = False
-STEPS['A', 3, 'B', None] = True
-STEPS['B', 3, 'A', None] = False
+for _ph in (None, 'right'):
+    STEPS['A', 3, 'B', _ph] = True
+    STEPS['C', 3, 'B', _ph] = False
+for _ph in (None, 'left'):
+    STEPS['B', 3, 'A', _ph] = False
+    STEPS['C', 3, 'A', _ph] = False
 STEPS['A', 3, 'C', None] = True
 STEPS['B', 3, 'C', None] = False
-STEPS['C', 3, 'A', None] = False
-STEPS['C', 3, 'B', None] = False
 
 # parameters of each home, in declaration order
 HOME_PARAMS = {'function': FUNCTIONS['f'][1], 'bridge': BRIDGES['b'][1],
@@ -221,9 +223,9 @@ def build_host(m):
     r3 = r_rel(3)
     r_assoc = m.new('R_ASSOC')
     rel(r_assoc, r3, 206)
-    _, r_aone = rto(r3, 'A', 'R_AONE', Mult=0, Cond=1, Txt_Phrs='')
+    _, r_aone = rto(r3, 'A', 'R_AONE', Mult=0, Cond=1, Txt_Phrs=PHRASES[3, 'A'])
     rel(r_aone, r_assoc, 209)
-    _, r_aoth = rto(r3, 'B', 'R_AOTH', Mult=1, Cond=1, Txt_Phrs='')
+    _, r_aoth = rto(r3, 'B', 'R_AOTH', Mult=1, Cond=1, Txt_Phrs=PHRASES[3, 'B'])
     rel(r_aoth, r_assoc, 210)
     _, r_assr = rgo(r3, 'C', 'R_ASSR', Mult=0)
     rel(r_assr, r_assoc, 211)
@@ -544,7 +546,7 @@ class Analysis(object):
         ph = ph[1:-1] if ph else None
         using = 'using_variable_name' in s['fields']
         if n == 3:
-            if not using or ph is not None or sorted((ka, kb)) != ['A', 'B']:
+            if not using or (ka, n, kb, ph) not in STEPS or 'C' in (ka, kb):
                 raise IllFormed('R3 relates an A and a B using a C')
             vc, _ = self.inst_var(scope, self.f(s, 'using_variable_name'), 'C')
             s.setdefault('vars', {})['using_variable_name'] = vc
@@ -1419,8 +1421,9 @@ def where_clauses():
             BIN('==', F(SEL, 'Num'), ('param', '$0'))]
 
 
-def chains(maxlen):
-    '''Every navigation chain of the class diagram up to maxlen steps: (start class, [(class, rel, phrase)], many).'''
+def chains(maxlen, optional_phrases=(1, 3)):
+    '''Every navigation chain of the class diagram up to maxlen steps: (start class, [(class, rel, phrase)], many).
+    The optional phrase of a non-reflexive relationship is used only for the relationships in *optional_phrases*.'''
     out = []
 
     def ext(start, cur, steps, many):
@@ -1429,7 +1432,7 @@ def chains(maxlen):
         if len(steps) == maxlen:
             return
         for (frm, rel, to, ph), m in sorted(STEPS.items(), key=repr):
-            if frm == cur:
+            if frm == cur and (ph is None or rel == 2 or rel in optional_phrases):
                 ext(start, to, steps + [(to, 'R%d' % rel, None if ph is None else T(ph))], many or m)
     for k in sorted(CLASSES):
         ext(k, k, [], False)
@@ -1446,6 +1449,8 @@ def family_statements(tier):
     rhs = []
     for k in ('integer', 'real', 'boolean', 'string', 'Color', 'inst', 'set'):
         rhs += L[k]
+    rhs += [I(0), I(12), ('real', '2.'), ('real', '.5'), ('real', '1e3'), ('real', '0.25'), ('str', ''), ('str', 'a b'),
+            ('str', "it's /* no */ -- // x"), FALSE]
     rhs += [SELF, ('param', '$0'), ('param', '$1'), F('a', 'Id'), F('a', 'Der'), F('b', 'A_Id'), F(SELF, 'Num'),
             ('index', V('v'), V('i')), ('index', ('index', V('w'), I(0)), I(1)), ('index', V('v'), BIN('+', V('i'), I(1))),
             UN('not', V('t')), UN('-', V('i')), UN('+', R15), UN('empty', V('aset')), UN('not_empty', V('a')),
@@ -1523,7 +1528,8 @@ def family_statements(tier):
               ('self', 'b', 'R1', None, None), ('b', 'self', 'R1', None, None),
               ('a', 'a2', 'R2', T('next'), None), ('a', 'a2', 'R2', ID('next'), None), ('a2', 'a', 'R2', T('prev'), None),
               ('self', 'a', 'R2', ID('prev'), None), ('a', 'self', 'R2', T('next'), None),
-              ('a', 'b', 'R3', None, 'c'), ('b', 'a', 'R3', None, 'c'), ('self', 'b', 'R3', None, 'c')]
+              ('a', 'b', 'R3', None, 'c'), ('b', 'a', 'R3', None, 'c'), ('self', 'b', 'R3', None, 'c'),
+              ('a', 'b', 'R3', T('right'), 'c'), ('b', 'a', 'R3', ID('left'), 'c')]
     for k in ('relate', 'unrelate'):
         for a, b, r, ph, u in combos:
             add((k, a, b, r, ph, u))
@@ -1539,7 +1545,7 @@ def family_statements(tier):
         add(('selfrom', card, 'a' if card == 'any' else 'aset', 'A', W[0], True))
     # -- select related ---------------------------------------------------------------------------------------------------------
     handle = {'A': ['a', 'self', 'aset'], 'B': ['b', 'bset'], 'C': ['c']}
-    for start, steps, many in chains(2 if tier == 'quick' else 3):
+    for start, steps, many in chains(2, (1,)) if tier == 'quick' else chains(3):
         for h in handle[start]:
             hm = many or h.endswith('set')
             for card in (('any', 'many') if hm else ('one',)):
@@ -1553,6 +1559,8 @@ def family_statements(tier):
     add(('selrel', 'many', 'bset', V('a'), [('B', 'R1', ID('owns'))], W[0]))
     add(('selrel', 'one', 'n', V('a'), [('A', 'R2', T('next')), ('A', 'R2', T('next')), ('A', 'R2', T('prev'))], None))
     add(('selrel', 'many', 'n', V('c'), [('A', 'R3', None), ('B', 'R1', T('owns')), ('C', 'R3', None)], None))
+    add(('selrel', 'many', 'n', V('a'), [('B', 'R3', T('right'))], None))
+    add(('selrel', 'one', 'n', V('c'), [('A', 'R3', ID('left')), ('A', 'R2', T('prev'))], W[0]))
     # -- invocations as statements ----------------------------------------------------------------------------------------------
     add(('call', None, ('fcall', 'g', [])))
     for c in calls:
